@@ -213,6 +213,112 @@ Section Parse.
   Definition check_fails (its : list item) : bool := existsb is_error its.
 End Parse.
 
+(* ---- the TEXT of a reported error, as ParseLine formats it (parse.go), and Check's output.
+        Check walks the items and returns the text of every Error item, in order (it prints no
+        line number; the report below pairs each text with the 1-based number of the line it came
+        from).  The texts embed what the regexp / time library said: two more oracles,
+        regex_err p = err.Error() of regexp.Compile(p), dur_err d = err.Error() of
+        time.ParseDuration(d).  cire's captures appear in three of the texts, printed with %s as
+        a Go slice: [whole-match between-<-and-the-LAST-> rest]. ---- *)
+Fixpoint split_last (p : ascii -> bool) (s : string) : option (string * string) :=
+  match s with
+  | EmptyString => None
+  | String c r =>
+      match split_last p r with
+      | Some (a, b) => Some (String c a, b)
+      | None => if p c then Some (EmptyString, r) else None
+      end
+  end.
+
+(* cire = ^\s*<(.* )>\s*(.* ) : fmt.Sprintf("%s", cire.FindStringSubmatch(line)) *)
+Definition cire_slice (l : string) : string :=
+  let (pre, r0) := span is_ws l in
+  match expect "<" r0 with
+  | None => ""
+  | Some r =>
+      let (seg, rest) := span not_nl r in
+      match split_last is_gt seg with
+      | None => ""
+      | Some (g1, after) =>
+          let (b, r2) := span is_ws (after ++ rest) in
+          let g2 := take_line r2 in
+          "[" ++ (pre ++ "<" ++ g1 ++ ">" ++ b ++ g2) ++ " " ++ g1 ++ " " ++ g2 ++ "]"
+      end
+  end.
+
+Section ErrorText.
+  Variable parse_dur : string -> option Z.
+  Variable regex_ok : string -> bool.
+  Variable atoi : string -> option Z.
+  Variable regex_err : string -> string.
+  Variable dur_err : string -> string.
+
+  (* Some text exactly when ParseLine returns an Error; every text but one ends with the line *)
+  Definition error_of (l : string) : option string :=
+    match scan_comment l with
+    | Some _ => None
+    | None =>
+    match scan_delay l with
+    | Some (d, _) =>
+        match dur_of parse_dur d with
+        | None => Some ("unknown delay time format: " ++ l)
+        | Some _ => None
+        end
+    | None =>
+    if cond_gate l then
+      match scan_cond l with
+      | None => Some ("malformed condition command: " ++ l)
+      | Some (p, n, to, _) =>
+          if regex_ok p then
+            match atoi n with
+            | None =>
+                Some (("malformed condition command " ++ cire_slice l ++ "; second argument " ++ n ++
+                       " should be integer, count of messages to await. Line was: ") ++ l)
+            | Some _ =>
+                match parse_dur to with
+                | None =>
+                    Some (("malformed condition command " ++ cire_slice l ++ "; third argument " ++ to ++
+                           " should be timeout duration in format like 10s or 1m. Yours could not be parsed because " ++
+                           dur_err to ++ ". Line was was ") ++ l)
+                | Some _ => None
+                end
+            end
+          else
+            Some (("malformed condition command " ++ cire_slice l ++ "; first argument " ++ p ++
+                   " should be regexp pattern, but did not compile because " ++ regex_err p ++ ". Line was ") ++ l)
+      end
+    else
+    match scan_filter l with
+    | Some (v, arg) =>
+        match verb_of v with
+        | VUnknown =>
+            Some ("malformed filter command; first argument not one of [+,-,a,d,r,accept,deny,reset], but was " ++ v)
+        | VReset => None
+        | VAccept | VDeny =>
+            if regex_ok arg then None
+            else Some (("malformed filter command; last argument " ++ arg ++
+                        " should be regexp pattern, but did not compile because " ++ regex_err arg ++ ". Line was ") ++ l)
+        end
+    | None => None
+    end
+    end
+    end.
+
+  (* Check over the lines of a file: (1-based line number, text) of every malformed line *)
+  Fixpoint check_report_from (n : N) (ls : list string) : list (N * string) :=
+    match ls with
+    | [] => []
+    | l :: r =>
+        match error_of l with
+        | Some t => (n, t) :: check_report_from (N.succ n) r
+        | None => check_report_from (N.succ n) r
+        end
+    end.
+  Definition check_report (ls : list string) : list (N * string) := check_report_from 1 ls.
+  (* what Check returns: the texts *)
+  Definition check_texts (ls : list string) : list string := map snd (check_report ls).
+End ErrorText.
+
 (* ---- a whole play file: ParseByLine = bufio.Scanner with ScanLines over the bytes of the file.
         A line ends at \n; a text that does not end in \n has one more, unterminated, line (kept when
         it is not empty); one trailing \r is dropped from every line (dropCR).  Since the repair F14d
